@@ -332,7 +332,7 @@ func vStoreOp(a []string) string {
 			if a[9] != "-" {
 				for _, r := range strings.Split(a[9], ";") {
 					var toks []string
-					if r != "-" {
+					if r != "." {
 						toks = strings.Split(r, ",")
 					}
 					if len(toks) != len(ies) {
